@@ -10,7 +10,7 @@ CORPUS = {
         ("a(X) :- b(X,X). r(X) :- a(X), b(X,Y). t(X) :- a(X), b(X,X). #show r/1. #show t/1.", ["b(1,1). b(2,3).", "b(1,2)."]),
         ("{a(X) : b(X)} :- c. r :- a(X), b(X), c. s(X) :- a(X), not b(X). #show r/0. #show s/1.", ["c. b(1).", "b(1)."]),
         ("a(X) :- b(X). a(X) :- c(X). r(X) :- a(X), b(X). #show r/1.", ["b(1). c(2)."]),
-        ("a(X) :- in(X). r(X) :- a(X), in(X). in2(X) :- e(X). s(X) :- in2(X), e(X). #show r/1. #show s/1.", ["in(1). e(2).", "in2(3). e(2)."]),
+        ("a(X) :- in(X). r(X) :- a(X), in(X). in2(X) :- e(X). s(X) :- in2(X), e(X). #show r/1. #show s/1.", ["in(1). e(2).", "in(3). e(3)."]),
         ("a :- b, #true. c :- d, #false. e :- not #false, b. f :- b : #false; d. g :- b : #true; d. #show a/0. #show c/0. #show e/0. #show f/0. #show g/0.", ["b.", "d.", "b. d."]),
         ("x(S) :- S = #sum{1,X : p(X), #true; 2,Y : q(Y), #false}, d(S). #show x/1.", ["p(1). q(1). d(0..3)."]),
     ],
@@ -22,7 +22,7 @@ CORPUS = {
         ("{p(1..3)}. a :- 1 < #max{X : p(X)} < 3. b :- 1 <= #min{X : p(X)} <= 2. c :- 1 != #max{X : p(X)} != 3. #show a/0. #show b/0. #show c/0. #show p/1.", [""]),
         ("{p(1..3)}. a :- 2 = #max{X : p(X)}. b(X,Y) :- X = #min{Z : p(Z)} = Y. #show a/0. #show b/2. #show p/1.", [""]),
         ("g(1..2). {p(G,1..2)} :- g(G). a(G,V) :- g(G), V = #min{X : p(G,X)}. #show a/2. #show p/2.", [""]),
-        ("{p(1..3)}. #minimize{V : V = #max{X : p(X)}}. :- not p(_). #show p/1.", [""]),
+        ("{p(1..3)}. :~ V = #max{X : p(X)}. [V] :- not p(_). #show p/1.", [""]),
     ],
     "projection": [
         ("p(A,D,F) :- q(A,B,C), r(A,D,F), t(E), not s(B,E), u(X,D) : v(X,E). #show p/3.", ["q(1,1,1). r(1,2,3). t(1). t(2). v(1,1). v(2,2). u(1,2).", "q(1,1,1). r(1,2,3). t(1). s(1,1)."]),
@@ -36,11 +36,17 @@ CORPUS = {
         ("{slot(1..2,1)}. :- slot(J1,M), slot(J2,M), not J1 > J2. #show slot/2.", [""]),
         ("{slot(1..3,1)}. a :- slot(J1,M), slot(J2,M), slot(J3,M), J1 != J2, J1 != J3, J2 != J3. #show a/0. #show slot/2.", [""]),
         ("{p(1..3)}. a(X) :- p(X), p(Y), X < Y. #show a/1. #show p/1.", [""]),
+        ("f :- p(X,A), p(Y,A), p(Z,B), X != Y, X != Z, Y != Z, A != B. g :- not f. #show f/0. #show g/0.", ["p(1,b). p(2,a). p(3,a).", "p(3,b). p(2,a). p(1,a).", "p(1,a). p(2,a). p(3,a)."]),
+        ("{q(1..3,1..2)}. f(A) :- q(X,A), q(Y,A), X != Y, r(X). #show f/1. #show q/2.", ["r(1).", "r(3)."]),
     ],
     "sum_chains": [
         ("q(1..2). v(1..3). {p(G,L) : v(L)} 1 :- q(G). a(S) :- S = #sum{X,G : p(G,X)}. #show a/1. #show p/2.", [""]),
         ("v(1..3). {p(L) : v(L)} 1. #minimize{L : p(L)}. #show p/1.", [""]),
         ("v(1..3). 1 {p(L) : v(L)} 1. a(S) :- S = #sum{L : p(L)}. #show a/1.", [""]),
+        ("day(1). pshift(1,(1;3;5)). {shift(D,L) : pshift(D,L)} 1 :- day(D). total(S) :- S = #sum{L,D : shift(D,L), L > 2}. #show total/1. #show shift/2.", [""]),
+        ("day(1). pshift(1,(1;3;5)). {shift(D,L) : pshift(D,L)} 1 :- day(D). #minimize{L,D : shift(D,L), L > 2}. #show shift/2.", [""]),
+        ("day(1..2). pshift(1..2,(1;3)). {shift(D,L) : pshift(D,L)} < 2 :- day(D). total(S) :- S = #sum{L,D : shift(D,L)}. #show total/1. #show shift/2.", [""]),
+        ("day(1). pshift(1,(1;3)). {shift(D,L) : pshift(D,L)} 2 :- day(D). total(S) :- S = #sum{L,D : shift(D,L)}. #show total/1. #show shift/2.", [""]),
     ],
     "none": [
         ("p(1..6). q(X) :- p(X), 2 < X < 5. r(X) :- p(X), X = 1..3. #show q/1. #show r/1.", [""]),
